@@ -368,3 +368,23 @@ func (s *Solver) TermValue(t *Term) (uint64, error) {
 	}
 	return 0, fmt.Errorf("cannot parse get-value output %q", out)
 }
+
+// CheckWithModel is CheckWith that also returns values of the named variables on Sat.
+func (s *Solver) CheckWithModel(extra *Term, names []string, sorts []Sort) (Result, map[string]uint64) {
+	if extra.IsFalse() {
+		return Unsat, nil
+	}
+	s.Push()
+	s.Assert(extra)
+	r := s.Check()
+	var model map[string]uint64
+	if r == Sat {
+		if len(names) == 0 {
+			model = map[string]uint64{}
+		} else if vals, err := s.Values(names, sorts); err == nil {
+			model = vals
+		}
+	}
+	s.Pop(1)
+	return r, model
+}
